@@ -89,6 +89,16 @@ func parseFile(name string, src []byte) *hcl.File {
 	return f
 }
 
+// newDecCtx: the decoder context every harness decoder gets: UTM parameters on, so that the URL of a hover and of a
+// documentation link to the same address differ (as a language server configures it)
+func newDecCtx() decoder.DecoderContext {
+	c := decoder.NewDecoderContext()
+	c.UtmSource = "verif"
+	c.UtmMedium = "hx"
+	c.UseUtmContent = true
+	return c
+}
+
 // Env is one language-server "world state": a reader with one or more paths.
 type Env struct {
 	R   *Reader
@@ -106,7 +116,7 @@ func newEnv(w *World, path string) *Env {
 		r.Failing[u] = true
 	}
 	e.Dec = decoder.NewDecoder(r)
-	e.Dec.SetContext(decoder.NewDecoderContext())
+	e.Dec.SetContext(newDecCtx())
 	return e
 }
 
